@@ -92,6 +92,38 @@ def gen_case(rng):
             'positions': pos, 'supercell': sc}
 
 
+def gen_near_special(rng):
+    """a site a few 1e-5 (fractional) off the special position (1/3, 2/3, z) of a hexagonal group — CIF-style 0.33333 / 0.66667 —
+    so that several symmetry images ALMOST coincide, and positions just inside the sphere of one image but just outside the sphere
+    of its near-twin (the lens between the two spheres)"""
+    grp = str(rng.choice(['P-3m1', 'P6/mmm', 'P6_3/mmc', 'P3']))
+    lat = np.array(LATS['hex'], float)
+    L = Lattice(lat)
+    radius = float(round(rng.uniform(0.2, 0.4) * min(perp_widths(lat)), 3))
+    d1, d2 = (float(rng.choice([-4e-5, -2e-5, 2e-5, 3e-5, 4e-5])) for _ in range(2))
+    site = np.array([1 / 3 + d1, 2 / 3 + d2, float(rng.integers(1, 63)) / 64])
+    site = np.round(site * 2 ** 44) / 2 ** 44
+    ops = space_group(grp).symmetry_ops
+    imgs = np.array([np.mod(o.operate(site), 1) for o in ops])
+    pos = []
+    for a in range(len(imgs)):
+        for b in range(len(imgs)):
+            if a == b:
+                continue
+            dfr = imgs[b] - imgs[a]
+            dfr -= np.round(dfr)
+            dc = L.get_cartesian_coords(dfr)
+            n = float(np.linalg.norm(dc))
+            if 2e-5 < n < 2e-3 and len(pos) < 10:
+                # inside sphere a by n/4, outside sphere b by about 3n/4 (and outside a third image at 60 degrees by n/4)
+                p = imgs[a] + L.get_fractional_coords(-(radius - 0.25 * n) * dc / n)
+                pos.append((np.round(np.mod(p, 1) * 2 ** 44) / 2 ** 44).tolist())
+    for _ in range(4):
+        pos.append((np.round(rng.random(3) * 4096) / 4096).tolist())
+    return {'group': grp, 'lattice_name': 'hex', 'lattice': lat.tolist(), 'site': site.tolist(), 'radius': radius, 'positions': pos,
+            'supercell': [1, 1, 1], 'near_special_position': True}
+
+
 def check_case(out: Outcome, case, tag):
     lat = np.array(case['lattice'], float)
     L = Lattice(lat)
@@ -112,6 +144,8 @@ def check_case(out: Outcome, case, tag):
             sub = rng.integers(0, np.array(sc), size=(len(pos), 3))
             big = (pos + sub) / np.array(sc)
             traj = gem.make_traj(big[None, :, :], np.array(sc)[:, None] * lat, ['Li'] * len(pos))
+            if len(pos) % 2:
+                _ = traj.displacements  # an earlier read-only query left the object in its displacement representation
             shapes = sa.analyze_trajectory(traj, supercell=tuple(sc), radius=radius)
             folded = np.mod(np.array(traj.positions).reshape(-1, 3), 1 / np.array(sc)) * np.array(sc)
             fm = core.drive([(str(k), f'fold {sc[k]} {len(pos)} ' + ' '.join(enc(v) for v in np.array(traj.positions).reshape(-1, 3)[:, k].tolist())) for k in range(3)])
@@ -227,6 +261,8 @@ def run(tier: str, seed: int, scale: int) -> Outcome:
         check_case(out, case, 'corpus')
     for _ in range((270 if tier == "quick" else 3600) * scale):
         check_case(out, gen_case(rng), 'random')
+    for _ in range((20 if tier == 'quick' else 200) * scale):
+        check_case(out, gen_near_special(rng), 'near-special-position')
     for _ in range(1 if tier == 'quick' else 5):
         check_large(out, rng)
     return out
